@@ -1,6 +1,111 @@
-import DtnVerif.Model.TcpclEp
+/-
+  C17 — TCPCL answers out-of-place peer messages without corrupting state.
+  The peer is arbitrary here: events carry arbitrary octets, so every theorem quantified over event
+  lists is a theorem against every adversarial peer and every history.
+-/
+import DtnVerif.Lemmas.TcpclEsc
+import DtnVerif.Lemmas.TcpclRx
+import DtnVerif.Lemmas.TcpclFrame
 namespace DtnVerif
 namespace Tcpcl
-theorem C17_placeholder : True := trivial
+
+theorem C17_facts :
+    Facts.enum_tcpcl_RejectMsg_Reason_UNEXPECTED = (rejUnexpected : Int)
+    ∧ Facts.enum_tcpcl_RejectMsg_Reason_UNKNOWN = (rejUnknown : Int) := by decide
+
+/-- **No callback ever escapes with an exception** (private test extensions off): for every event
+    list — every schedule, every octet string the peer may send, every user call — no step of the
+    endpoint produces an `escaped` output. -/
+theorem C17_no_escape (cfg : Cfg) (hp : cfg.privExt = false) (evs : List Ev) :
+    ∀ os ∈ (run { cfg := cfg } evs).2, ∀ o ∈ os, ∀ w, o ≠ .escaped w := by
+  intro os hos o ho w heq
+  have h := esc_run evs { cfg := cfg } hp os hos
+  unfold noEsc at h
+  rw [List.all_eq_true] at h
+  have := h o ho
+  subst heq
+  simp [Out.isEsc] at this
+
+/-- **Nothing is ever assembled from mismatched transfers**: whatever the peer sends, the completed
+    receptions are exactly those of the ideal receiver (a non-START segment extends only the open
+    transfer with the same id; anything else leaves reassembly untouched). -/
+theorem C17_rx_spec (cfg : Cfg) (evs : List Ev) :
+    (runEp { cfg := cfg } evs).rxLog = deliver (runEp { cfg := cfg } evs).processed :=
+  (rxInv_run evs _ (rxInv_init cfg)).1
+
+/-- a peer message that is out of place in the current state -/
+def OutOfPlace (e : Ep) : Msg → Prop
+  | .xferSegment flags tid _ _ =>
+      e.inSess = false ∨ (hasStart flags = false ∧ ∀ t d, e.rxTmp = some (t, d) → (t == tid) = false)
+  | .xferAck flags tid _ =>
+      e.inSess = false ∨ e.txMap.contains tid = false ∨ (hasEnd flags = true ∧ e.txPendAck.contains tid = false)
+  | .xferRefuse _ tid => e.inSess = false ∨ e.txMap.contains tid = false
+  | .sessTerm _ _ => e.inSess = false
+  | _ => False
+
+/-- the endpoint's own transmit state -/
+def Ep.ownTx (e : Ep) := (e.txPendStart, e.txTmp, e.txPendAck, e.txMap, e.sendLog, e.txNextId, e.nStarted)
+
+/-- **Response and isolation.** An out-of-place segment, ACK, refusal or SESS_TERM is answered with
+    exactly one MSG_REJECT (reason "unexpected", naming the offending type); the endpoint's own
+    transfers, its reassembly state and its open/closed state are untouched. -/
+theorem C17_response (e : Ep) (m : Msg) (h : OutOfPlace e m) :
+    (handleMsg e m).1.emitted = e.emitted ++ [.msgReject m.type rejUnexpected]
+    ∧ (handleMsg e m).1.ownTx = e.ownTx
+    ∧ (handleMsg e m).1.rxLog = e.rxLog ∧ (handleMsg e m).1.rxTmp = e.rxTmp
+    ∧ (handleMsg e m).1.closed = e.closed ∧ (handleMsg e m).2 = [] := by
+  unfold handleMsg
+  cases m with
+  | contact f => exact absurd h (by simp [OutOfPlace])
+  | sessInit a b c d x => exact absurd h (by simp [OutOfPlace])
+  | keepalive => exact absurd h (by simp [OutOfPlace])
+  | msgReject a b => exact absurd h (by simp [OutOfPlace])
+  | sessTerm f r =>
+    have hs : e.inSess = false := h
+    simp [onSessTerm, hs, sendReject, sendMessage, kaReset, idleReset, Ep.ownTx]
+  | xferRefuse r t =>
+    rcases h with hs | hm
+    · simp [onRefuse, hs, sendReject, sendMessage, kaReset, idleReset, Ep.ownTx]
+    · have hm' : t ∉ e.txMap := by simpa using hm
+      cases hs : e.inSess <;> simp [onRefuse, hs, hm', sendReject, sendMessage, kaReset, idleReset, Ep.ownTx]
+  | xferAck f t l =>
+    rcases h with hs | hm | ⟨he, hp⟩
+    · simp [onAck, hs, sendReject, sendMessage, kaReset, idleReset, Ep.ownTx]
+    · have hm' : t ∉ e.txMap := by simpa using hm
+      cases hs : e.inSess <;> simp [onAck, hs, hm', sendReject, sendMessage, kaReset, idleReset, Ep.ownTx]
+    · have hp' : t ∉ e.txPendAck := by simpa using hp
+      cases hs : e.inSess <;> by_cases hm : t ∈ e.txMap <;>
+        simp [onAck, hs, hm, he, hp', sendReject, sendMessage, kaReset, idleReset, Ep.ownTx]
+  | xferSegment f t x d =>
+    rcases h with hs | ⟨hst, hrt⟩
+    · simp [onSegment, hs, sendReject, sendMessage, kaReset, idleReset, Ep.ownTx]
+    · cases hs : e.inSess
+      · simp [onSegment, hs, sendReject, sendMessage, kaReset, idleReset, Ep.ownTx]
+      · cases hr : e.rxTmp with
+        | none => simp [onSegment, hs, hst, hr, sendReject, sendMessage, kaReset, idleReset, Ep.ownTx]
+        | some p =>
+          obtain ⟨t', d'⟩ := p
+          have := hrt t' d' hr
+          simp [onSegment, hs, hst, hr, this, sendReject, sendMessage, kaReset, idleReset, Ep.ownTx]
+
+/-- **A contact header with wrong magic or version closes the connection** (and nothing is processed). -/
+theorem C17_bad_contact_closes (e : Ep) (c : Bytes) (hc : e.closed = false)
+    (hbad : (feed e.rx c).1.dead = true) : (step e (.rx c)).1.closed = true := by
+  have hstep : (step e (.rx c)).1 = (recvRaw e c).1 := by unfold step; simp [hc]
+  rw [hstep]
+  unfold recvRaw
+  simp only [hbad, if_true]
+  exact closed_doClose _
+
+/-- non-vacuity: an established endpoint with an open reception and a queued transfer; an ACK for an
+    unknown transfer and a stray non-START segment are out of place; the ACK is rejected -/
+def exEp : Ep := { inSess := true, sentInit := true, sentContact := true, started := true, sendSegSize := 10,
+                   rxTmp := some (7, [1, 2]), txMap := [1], txPendStart := [⟨1, [9, 9, 9]⟩], txNextId := 2,
+                   sendLog := [⟨1, [9, 9, 9]⟩] }
+example : OutOfPlace exEp (.xferAck 1 999 5) := Or.inr (Or.inl (by decide))
+example : OutOfPlace exEp (.xferSegment 0 8 [] [3]) :=
+  Or.inr ⟨by decide, by intro t d h; cases h; decide⟩
+example : (handleMsg exEp (.xferAck 1 999 5)).1.emitted = [.msgReject tXferAck rejUnexpected] := by decide
+
 end Tcpcl
 end DtnVerif
